@@ -15,7 +15,7 @@ From MZ.model Require Import DeflateCore.
 From MZ.lib Require Import Arr.
 From MZ.model Require InflateCore.
 From MZ.model Require InflateStream.
-From MZ.proofs Require Import DeflateFlags StoredSpec StoredRoundtrip StoredEndToEnd StoredEndToEndZ StoredApiRoundtrip StoredTotal.
+From MZ.proofs Require Import DeflateFlags StoredSpec StoredRoundtrip StoredEndToEnd StoredEndToEndZ StoredApiRoundtrip StoredTotal StoredVecTotal StoredApiTotal.
 Import ListNotations.
 Local Open Scope Z_scope.
 
@@ -143,3 +143,32 @@ Theorem C01_level0_compress_never_panics_partial :
   | _ => False
   end.
 Proof. exact compress_to_vec_level0_never_panics. Qed.
+
+(* ... and the loop returns: for every input under 2^36 bytes the compressor model's compress_to_vec_inner IS the
+   stored-block vector (no Panic value, no panic!("Bug! ..."), no exhausted fuel): the stored engine terminates
+   by the measure input-left + lookahead, a Finish call of compress() with room in the buffer delivers at least
+   one byte unless it is done, and what has been delivered is never longer than the final stream *)
+Theorem C01_level0_compress_returns_partial :
+  forall (data : list N) (flags : N),
+  hasf flags FLAG_RAW = true -> (N.of_nat (length data) < 2 ^ 36)%N ->
+  compress_to_vec_inner data flags = Ret (VBytes (StoredModel.FULL data flags 15)).
+Proof. exact compress_to_vec_level0_total. Qed.
+
+(* ... so that the level-0 clause of C01 is a closed statement about the two models: compress_to_vec_inner
+   returns a vector and decompress_to_vec_inner applied to it returns the input - every input (bytes, under
+   2^36 of them), raw and zlib *)
+Theorem C01_level0_total_roundtrip_on_both_models_partial :
+  forall (data : list N) (cflags iflags0 : N),
+  hasf cflags FLAG_RAW = true -> bytes_ok data -> (N.of_nat (length data) < 2 ^ 36)%N ->
+  InflateCore.has (N.lor iflags0 InflateCore.F_NONWRAP) InflateCore.F_ZLIB = hasf cflags FLAG_ZLIB ->
+  InflateCore.has (N.lor iflags0 InflateCore.F_NONWRAP) InflateCore.F_STOPBB = false ->
+  exists out,
+    compress_to_vec_inner data cflags = Ret (VBytes out) /\
+    InflateStream.decompress_to_vec_inner out iflags0 USIZE_MAX = Ret (InflateStream.VOk data).
+Proof. exact level0_api_total. Qed.
+
+Example C01_total_roundtrip_hypotheses_hold :
+  hasf 528384 FLAG_RAW = true /\ hasf 528384 FLAG_ZLIB = true /\
+  InflateCore.has (N.lor 1 InflateCore.F_NONWRAP) InflateCore.F_ZLIB = true /\
+  InflateCore.has (N.lor 1 InflateCore.F_NONWRAP) InflateCore.F_STOPBB = false.
+Proof. vm_compute. repeat split; reflexivity. Qed.
